@@ -341,6 +341,28 @@ func genDTFar(r *core.Run, row int) (string, bool) {
 		"2020-12-31 00:00:00", "2262-04-11 23:47:17", "2263-01-01 00:00:00", "9999-12-31 23:59:59"}[r.Rand.Intn(10)], false
 }
 
+// genKeyDTWrap: datetimes in pairs that lie exactly 2^64 nanoseconds apart (their UnixNano values coincide), and
+// others; all different values - the strict reading (--strict-equal) and the normalised one agree on them
+var dtWrapValues = func() []string {
+	var out []string
+	for _, s := range []string{"1500-01-01 00:00:00", "1815-06-18 11:30:00", "0900-03-04 05:06:07"} {
+		t, _ := time.Parse("2006-01-02 15:04:05", s)
+		u := t
+		for k := 0; k < 4; k++ {
+			u = u.Add(1 << 62)
+		}
+		out = append(out, s, u.Format("2006-01-02 15:04:05.999999999"))
+	}
+	return append(out, "2000-02-03 04:05:06")
+}()
+
+func genKeyDTWrap(r *core.Run, row int) (string, bool) {
+	if r.Rand.Intn(10) == 0 {
+		return "", true
+	}
+	return dtWrapValues[r.Rand.Intn(len(dtWrapValues))], false
+}
+
 func genTable(r *core.Run, name string, cols []string, gens []colGen, n int) *rtable {
 	t := &rtable{Name: name, Cols: cols}
 	for i := 0; i < n; i++ {
